@@ -89,7 +89,10 @@ def main():
                 o.discard(rng.choice(["[C]", "[=C]", "[N]", "[Ring1]"]))
                 set_mut = True
         elif r < 0.82:
-            x = "".join(gens.alive_selfies(rng, rng.randint(1, 40)))
+            toks = gens.alive_selfies(rng, rng.randint(1, 40))
+            for _ in range(rng.randint(0, 3)):      # hydrogen-rich atoms whose validity depends on the table
+                toks.insert(rng.randint(0, len(toks)), rng.choice(["[NH4]", "[CH5]", "[OH3]", "[CH4]", "[NH3]", "[BH4]", "[SH6]", "[PH5]"]))
+            x = "".join(toks)
             compat = rng.random() < 0.1
             got = list(de.call_decoder(x, compat, False))
             want = fresh({"op": "decode", "table": cur, "x": x, "compat": compat})
